@@ -64,9 +64,9 @@ pub(crate) fn mk_code<'a>(cfg: &'a Config, buf: [u8; B], geo: (usize, usize, usi
     mk(cfg, buf, geo, state_of(state_code), role, id, stream, payload_rem, padding_rem, output, output_start)
 }
 
-fn any_id() -> u16 { let id: u16 = kani::any(); kani::assume(id != 0); id }
+pub(crate) fn any_id() -> u16 { let id: u16 = kani::any(); kani::assume(id != 0); id }
 
-fn geo_ok(p: &Parser<'_>) -> bool {
+pub(crate) fn geo_ok(p: &Parser<'_>) -> bool {
     p.parsed_start <= p.gap_start && p.gap_start <= p.raw_start && p.raw_start <= p.free_start
         && p.free_start <= p.buffer.len() && p.output_start <= p.output.len()
 }
@@ -79,7 +79,7 @@ fn geo_ok(p: &Parser<'_>) -> bool {
 #[kani::proof]
 #[kani::unwind(2)]
 #[kani::stub(std::hash::RandomState::new, fixed_random_state)]
-fn c02_compress() {
+pub(crate) fn c02_compress() {
     let cfg = cfg1();
     let buf: [u8; B] = kani::any();
     let g = any_geo(B);
@@ -105,7 +105,7 @@ fn c02_compress() {
 #[kani::proof]
 #[kani::unwind(2)]
 #[kani::stub(std::hash::RandomState::new, fixed_random_state)]
-fn c02_consume_discard() {
+pub(crate) fn c02_consume_discard() {
     let cfg = cfg1();
     let buf: [u8; B] = kani::any();
     let g = any_geo(B);
@@ -133,7 +133,7 @@ fn c02_consume_discard() {
 #[kani::proof]
 #[kani::unwind(7)]
 #[kani::stub(std::hash::RandomState::new, fixed_random_state)]
-fn c02_consume_output() {
+pub(crate) fn c02_consume_output() {
     let cfg = cfg1();
     let buf: [u8; B] = kani::any();
     let g = any_geo(B);
@@ -157,100 +157,9 @@ fn c02_consume_output() {
     std::mem::forget(p);
 }
 
-// ------------------------------------------------------------------------------------------------ parse_payload
-
-fn payload_case(state: State, with_dest: bool) {
-    let cfg = cfg1();
-    let buf: [u8; B] = kani::any();
-    let g = any_geo(B);
-    let role = any_role();
-    let stream = any_active(role);
-    let is_stream = matches!(state, State::Stream);
-    if is_stream { kani::assume(stream.is_some()); }
-    let payload_rem: u16 = kani::any();
-    let padding_rem: u8 = kani::any();
-    kani::assume(payload_rem > 0);           // parse() calls parse_payload only then
-    kani::assume(g.2 < g.3);                  // ... and only inside `while raw_start < free_start`
-    if with_dest { kani::assume(g.0 == g.1); }   // documented precondition of dest = Some
-    let mut p = mk(&cfg, buf, g, state, role, any_id(), stream, payload_rem, padding_rem, Vec::new(), 0);
-    let (plen, rlen) = (g.1 - g.0, g.3 - g.2);
-    let mut dbuf = [0xEEu8; B];
-    let dlen: usize = kani::any();
-    kani::assume(dlen <= B);
-    let s0: usize = kani::any();
-    kani::assume(s0 <= 1000);
-    let mut res = Status { stream: s0, output: 0, stream_end: kani::any() };
-    let end0 = res.stream_end;
-    let (flow, dest_left) = {
-        let mut dest: Option<&mut [u8]> = if with_dest { Some(&mut dbuf[..dlen]) } else { None };
-        let f = p.parse_payload(&mut res, &mut dest);
-        (f, dest.map_or(0, |d| d.len()))
-    };
-    let avail = if (payload_rem as usize) < rlen { payload_rem as usize } else { rlen };
-    let c = if is_stream && with_dest && dlen < avail { dlen } else { avail };
-    assert!(geo_ok(&p), "representation invariant broken");
-    assert!(p.raw_start == g.2 + c && p.free_start == g.3, "wrong number of raw bytes consumed");
-    assert!(p.payload_rem == payload_rem - c as u16 && p.padding_rem == padding_rem, "record accounting wrong");
-    assert!(p.stream == stream && res.stream_end == end0 && res.output == 0 && p.output.is_empty());
-    let i: usize = kani::any();
-    if is_stream {
-        assert!(res.stream == s0 + c, "reported stream byte count wrong");
-        if with_dest {
-            assert!(p.parsed_start == g.0 && p.gap_start == g.1, "internal stream buffer touched although dest was given");
-            assert!(dest_left == dlen - c, "dest slice not advanced by the bytes written");
-            if i < c { assert!(dbuf[i] == buf[g.2 + i], "delivered byte differs from the payload byte"); }
-            if i >= c && i < B { assert!(dbuf[i] == 0xEE, "bytes beyond the delivered count were written"); }
-            kani::cover!(dlen < avail && dlen > 0, "dest smaller than the available payload");
-            kani::cover!(dlen == 0, "empty dest");
-        } else {
-            assert!(p.parsed_start == g.0 && p.gap_start == g.1 + c, "stream buffer not extended by the payload");
-            if i < plen { assert!(p.buffer[g.0 + i] == buf[g.0 + i], "previously parsed stream bytes changed"); }
-            if i < c { assert!(p.buffer[g.1 + i] == buf[g.2 + i], "appended stream byte differs from the payload byte"); }
-            kani::cover!(g.2 > g.1 && g.2 < g.1 + c, "source and destination of the move overlap");
-            kani::cover!(g.2 == g.1 && c > 0, "move in place (no gap)");
-        }
-    } else {
-        assert!(res.stream == s0, "bytes delivered outside State::Stream");
-        assert!(p.parsed_start == g.0 && p.gap_start == g.1, "stream buffer changed while skipping");
-        if i < plen { assert!(p.buffer[g.0 + i] == buf[g.0 + i]); }
-    }
-    // unread raw bytes are untouched
-    if i < rlen - c { assert!(p.buffer[g.2 + c + i] == buf[g.2 + c + i], "unconsumed raw byte changed"); }
-    let cont = p.payload_rem == 0 && c < rlen;
-    assert!(flow.is_continue() == cont, "loop control: must continue exactly when the payload is complete and raw bytes remain");
-    kani::cover!(payload_rem as usize > rlen, "payload continues beyond the buffered bytes");
-    kani::cover!(payload_rem == 65535, "maximal record");
-    kani::cover!(cont, "payload complete, more raw data");
-    std::mem::forget(p);
-}
-
-// @harness name=c02_payload_stream_internal props=C02,C03,C18 tier=quick timeout=600 dead=2
-// @bound State::Stream, dest=None; 24-byte buffer, every geometry with >=1 raw byte, payload_rem 1..65535, padding_rem 0..255
-// @functions stream::Parser::parse_payload
-#[kani::proof]
-#[kani::unwind(4)]
-#[kani::stub(std::hash::RandomState::new, fixed_random_state)]
-fn c02_payload_stream_internal() { payload_case(State::Stream, false); }
-
-// @harness name=c02_payload_stream_dest props=C02,C03,C18 tier=quick timeout=600 dead=2
-// @bound State::Stream, dest=Some(len 0..24); 24-byte buffer, every geometry with empty stream buffer and >=1 raw byte, payload_rem 1..65535
-// @functions stream::Parser::parse_payload
-#[kani::proof]
-#[kani::unwind(4)]
-#[kani::stub(std::hash::RandomState::new, fixed_random_state)]
-fn c02_payload_stream_dest() { payload_case(State::Stream, true); }
-
-// @harness name=c02_payload_skip props=C02,C03,C18 tier=quick timeout=600 dead=4
-// @bound State::Skip, dest None or Some; 24-byte buffer, every geometry, payload_rem 1..65535
-// @functions stream::Parser::parse_payload
-#[kani::proof]
-#[kani::unwind(4)]
-#[kani::stub(std::hash::RandomState::new, fixed_random_state)]
-fn c02_payload_skip() { payload_case(State::Skip, kani::any()); }
-
 // ------------------------------------------------------------------------------------------------ parse_head
 
-fn ridx(role: fcgi::Role, s: fcgi::RecordType) -> Option<usize> {
+pub(crate) fn ridx(role: fcgi::Role, s: fcgi::RecordType) -> Option<usize> {
     match (role, s) {
         (fcgi::Role::Responder, fcgi::RecordType::Stdin) | (fcgi::Role::Filter, fcgi::RecordType::Stdin) => Some(0),
         (fcgi::Role::Filter, fcgi::RecordType::Data) => Some(1),
@@ -270,14 +179,14 @@ pub(crate) fn ref_cmp(role: fcgi::Role, recv: fcgi::RecordType, exp: Option<fcgi
     }
 }
 
-fn any_state() -> State {
+pub(crate) fn any_state() -> State {
     let k: u8 = kani::any();
     match k { 0 => State::Stream, 1 => State::Skip, _ => {
         let b: u8 = kani::any(); kani::assume(b < 8);
         State::Values { vars: fcgi::ProtocolVariables::from_bits_truncate(b) } } }
 }
 
-fn same_state(a: &State, b: &State) -> bool {
+pub(crate) fn same_state(a: &State, b: &State) -> bool {
     match (a, b) {
         (State::Stream, State::Stream) | (State::Skip, State::Skip) => true,
         (State::Values { vars: x }, State::Values { vars: y }) => x.bits() == y.bits(),
@@ -285,122 +194,11 @@ fn same_state(a: &State, b: &State) -> bool {
     }
 }
 
-fn is_rec(out: &[u8], at: usize, rtype: u8, id: u16, body0: u8, body4: u8) -> bool {
+pub(crate) fn is_rec(out: &[u8], at: usize, rtype: u8, id: u16, body0: u8, body4: u8) -> bool {
     out.len() >= at + 16 && out[at] == 1 && out[at + 1] == rtype && out[at + 2] == (id >> 8) as u8 && out[at + 3] == id as u8
         && out[at + 4] == 0 && out[at + 5] == 8 && out[at + 6] == 0 && out[at + 7] == 0
         && out[at + 8] == body0 && out[at + 9] == 0 && out[at + 10] == 0 && out[at + 11] == 0
         && out[at + 12] == body4 && out[at + 13] == 0 && out[at + 14] == 0 && out[at + 15] == 0
-}
-
-// @harness name=c02_head props=C02,C03,C04,C11,C18 tier=quick timeout=2400
-// @bound record-boundary state (payload_rem = padding_rem = 0), every geometry of the 24-byte buffer, every role / request id / active stream / previous State, every 8-byte header (all 2^64), no pending output
-// @functions stream::Parser::parse_head, cmp_input_streams, RecordHeader::from_bytes, UnknownType::to_record, EndRequest::to_record
-#[kani::proof]
-#[kani::unwind(18)]
-#[kani::stub(std::hash::RandomState::new, fixed_random_state)]
-fn c02_head() { head_case(0); }
-
-// @harness name=c02_head_pending_out props=C02,C04 tier=quick timeout=2400
-// @bound as c02_head, with 2 bytes of unconsumed output pending (replies must be appended after them)
-// @functions stream::Parser::parse_head
-#[kani::proof]
-#[kani::unwind(18)]
-#[kani::stub(std::hash::RandomState::new, fixed_random_state)]
-fn c02_head_pending_out() { head_case(2); }
-
-fn head_case(npre: usize) {
-    let cfg = cfg1();
-    let buf: [u8; B] = kani::any();
-    let g = any_geo(B);
-    let role = any_role();
-    let stream = any_active(role);
-    let id = any_id();
-    let st0 = any_state();
-    if matches!(st0, State::Stream) { kani::assume(stream.is_some()); }
-    let st0c = st0.clone();
-    let mut out = Vec::with_capacity(64);
-    if npre >= 1 { out.push(0xD1); }
-    if npre >= 2 { out.push(0xD2); }
-    let mut p = mk(&cfg, buf, g, st0, role, id, stream, 0, 0, out, 0);
-    let rlen = g.3 - g.2;
-    let end0: bool = kani::any();
-    let mut res = Status { stream: 0, output: 0, stream_end: end0 };
-    let r = p.parse_head(&mut res);
-    assert!(geo_ok(&p), "representation invariant broken");
-    assert!(p.parsed_start == g.0 && p.gap_start == g.1 && p.free_start == g.3 && p.stream == stream && res.stream == 0);
-    assert!(p.output.len() >= npre && (npre < 1 || p.output[0] == 0xD1) && (npre < 2 || p.output[1] == 0xD2), "pending output damaged");
-    let unchanged = |p: &Parser<'_>, res: &Status| p.raw_start == g.2 && p.payload_rem == 0 && p.padding_rem == 0
-        && same_state(&p.state, &st0c) && p.output.len() == npre && res.output == 0;
-    if rlen < 8 {
-        assert!(matches!(r, Ok(Break(()))) && unchanged(&p, &res) && res.stream_end == end0, "short header must wait for more input without side effects");
-        kani::cover!(rlen == 7, "header one byte short");
-    } else {
-        let h = [buf[g.2], buf[g.2 + 1], buf[g.2 + 2], buf[g.2 + 3], buf[g.2 + 4], buf[g.2 + 5], buf[g.2 + 6], buf[g.2 + 7]];
-        let (ver, ty) = (h[0], h[1]);
-        let hid = ((h[2] as u16) << 8) | h[3] as u16;
-        let len = ((h[4] as u16) << 8) | h[5] as u16;
-        let pad = h[6];
-        let consumed = |p: &Parser<'_>| p.raw_start == g.2 + 8 && p.payload_rem == len && p.padding_rem == pad;
-        if ver != 1 {
-            assert!(matches!(r, Err(Error::UnknownVersion(v)) if v == ver), "unknown version must be fatal");
-            assert!(unchanged(&p, &res) && res.stream_end == end0, "failing header must stay in the buffer so the error repeats");
-            kani::cover!(ty == 0, "bad version and bad type: version wins");
-        } else if ty == 0 || ty > 11 {
-            assert!(matches!(r, Ok(Continue(()))) && consumed(&p) && matches!(p.state, State::Skip), "unknown type must be skipped");
-            assert!(p.output.len() == npre + 16 && res.output == 16, "exactly one 16-byte reply, count reported");
-            assert!(is_rec(&p.output, npre, 11, hid, ty, 0), "reply is not Unknown(type) for the record's id");
-            assert!(res.stream_end == end0);
-            kani::cover!(hid == id, "unknown type with the request's own id");
-            kani::cover!(ty == 255 && len == 65535 && pad == 255, "unknown type 255 with maximal lengths");
-        } else {
-            let rt = fcgi::RecordType::try_from(ty).unwrap();
-            if (ty == 5 || ty == 8) && hid == id {
-                let ord = ref_cmp(role, rt, stream);
-                if ord == Ordering::Equal && len != 0 {
-                    assert!(matches!(r, Ok(Continue(()))) && consumed(&p) && matches!(p.state, State::Stream), "record of the active stream must be delivered");
-                    assert!(res.stream_end == end0 && p.output.len() == npre && res.output == 0);
-                    kani::cover!(ty == 8, "Data record while Data is active");
-                } else if ord == Ordering::Less {
-                    assert!(matches!(r, Ok(Continue(()))) && consumed(&p) && matches!(p.state, State::Skip), "earlier / foreign stream must be skipped");
-                    assert!(res.stream_end == end0 && p.output.len() == npre && res.output == 0);
-                    kani::cover!(stream.is_none(), "any stream record while the active stream is None");
-                    kani::cover!(role == fcgi::Role::Responder && ty == 8, "Data record for a Responder");
-                    kani::cover!(role == fcgi::Role::Filter && ty == 5 && stream == Some(fcgi::RecordType::Data), "stale Stdin while Data is active");
-                } else {
-                    assert!(matches!(r, Ok(Break(()))) && res.stream_end, "end of stream not reported");
-                    assert!(unchanged(&p, &res), "end-of-stream / later-stream header must be held back");
-                    kani::cover!(len == 0 && ord == Ordering::Equal, "empty terminating record");
-                    kani::cover!(ord == Ordering::Greater && len != 0, "first record of a later stream");
-                }
-            } else if ty == 2 && hid == id {
-                assert!(matches!(r, Err(Error::AbortRequest)), "abort for the request in progress must be reported");
-                assert!(unchanged(&p, &res) && res.stream_end == end0, "abort header must stay in the buffer so the error repeats");
-                kani::cover!(len != 0 || pad != 0, "abort record with body/padding");
-            } else if ty == 1 && hid != id {
-                assert!(matches!(r, Ok(Continue(()))) && consumed(&p) && matches!(p.state, State::Skip));
-                assert!(p.output.len() == npre + 16 && res.output == 16, "exactly one 16-byte reply, count reported");
-                assert!(is_rec(&p.output, npre, 3, hid, 0, 1), "reply is not EndRequest(CantMpxConn, 0) for the FOREIGN id");
-                assert!(res.stream_end == end0);
-                kani::cover!(hid == 0, "BeginRequest with id 0");
-            } else if ty == 9 && hid == 0 {
-                assert!(matches!(r, Ok(Continue(()))) && consumed(&p), "GetValues must be parsed");
-                assert!(matches!(p.state, State::Values { vars } if vars.bits() == 0), "GetValues must start with an empty variable set");
-                assert!(res.stream_end == end0 && p.output.len() == npre && res.output == 0);
-                kani::cover!(len == 0, "GetValues with empty body");
-            } else {
-                assert!(matches!(r, Ok(Continue(()))) && consumed(&p) && matches!(p.state, State::Skip), "other records must be skipped silently");
-                assert!(res.stream_end == end0 && p.output.len() == npre && res.output == 0, "no reply for ignorable records");
-                kani::cover!(ty == 2 && hid != id, "abort for another id is ignored");
-                kani::cover!(ty == 1 && hid == id, "duplicate BeginRequest for the same id is ignored");
-                kani::cover!(ty == 4, "stale Params record");
-                kani::cover!(ty == 9 && hid != 0, "GetValues with a non-null id");
-                kani::cover!((ty == 5 || ty == 8) && hid != id, "stream record for a foreign id");
-                kani::cover!(ty == 10 || ty == 11 || ty == 3 || ty == 6 || ty == 7, "server-to-client record types");
-            }
-        }
-    }
-    std::mem::forget(r);
-    std::mem::forget(p);
 }
 
 // ------------------------------------------------------------------------------------------------ set_stream (C18)
@@ -410,7 +208,7 @@ fn head_case(npre: usize) {
 // @functions cmp_input_streams
 #[kani::proof]
 #[kani::unwind(4)]
-fn c18_cmp_table() {
+pub(crate) fn c18_cmp_table() {
     let role = any_role();
     let exp = any_active(role);
     let recv = if kani::any() { fcgi::RecordType::Stdin } else { fcgi::RecordType::Data };
@@ -420,13 +218,13 @@ fn c18_cmp_table() {
     kani::cover!(role == fcgi::Role::Authorizer, "role without input streams");
 }
 
-// @harness name=c18_set_stream props=C18,C02,C09 tier=quick timeout=2400
+// @harness name=c18_set_stream props=C18,C02,C09,C04 tier=quick timeout=2400
 // @bound every geometry of the 24-byte buffer, every role / current selection / State / payload_rem / padding_rem; requested selection: None or ANY of the 11 record types; second call with None|Stdin|Data
 // @functions stream::Parser::set_stream, stream::Parser::active_stream, discard_stream, compress
 #[kani::proof]
 #[kani::unwind(4)]
 #[kani::stub(std::hash::RandomState::new, fixed_random_state)]
-fn c18_set_stream() {
+pub(crate) fn c18_set_stream() {
     let cfg = cfg1();
     let buf: [u8; B] = kani::any();
     let g = any_geo(B);
@@ -478,102 +276,6 @@ fn c18_set_stream() {
     std::mem::forget(p);
 }
 
-// ------------------------------------------------------------------------------------------------ parse_payload, State::Values
-
-fn payload_values_case<const N: usize>() {
-    let cfg = cfg1();
-    let buf: [u8; B] = kani::any();
-    // concrete geometry (1 parsed byte, a 1-byte gap, N raw bytes): the index arithmetic for arbitrary geometries is
-    // covered by the Stream/Skip instances of the same function; here the subject is the GetValues body handling
-    let g = (0usize, 1usize, 2usize, 2 + N);
-    let rlen = g.3 - g.2;
-    let role = any_role();
-    let v0: u8 = kani::any();
-    kani::assume(v0 < 8);
-    let payload_rem: u16 = kani::any();
-    kani::assume(payload_rem > 0);
-    let padding_rem: u8 = kani::any();
-    let mut out = Vec::with_capacity(16);
-    out.push(0xD1);
-    let mut p = mk(&cfg, buf, g, State::Values { vars: fcgi::ProtocolVariables::from_bits_truncate(v0) }, role, any_id(),
-                   any_active(role), payload_rem, padding_rem, out, 0);
-    let mut res = Status { stream: 0, output: 0, stream_end: false };
-    let flow = { let mut dest: Option<&mut [u8]> = None; p.parse_payload(&mut res, &mut dest) };
-    // reference
-    let plen_ = if (payload_rem as usize) < rlen { payload_rem as usize } else { rlen };
-    let body = &buf[g.2..g.2 + plen_];
-    let mut o = 0usize;
-    let mut vars = v0;
-    let mut pairs = 0;
-    while let Some((h, nl, vl)) = crate::verif_kani::ref_next(body, o) {
-        if nl == 1 { match body[o + h] { b'A' => vars |= 1, b'B' => vars |= 2, b'C' => vars |= 4, _ => {} } }
-        o += h + nl + vl;
-        pairs += 1;
-    }
-    let complete = rlen >= payload_rem as usize;
-    let c = if complete { plen_ } else { o };
-    assert!(geo_ok(&p) && p.raw_start == g.2 + c && p.payload_rem == payload_rem - c as u16 && p.padding_rem == padding_rem,
-            "GetValues body accounting wrong (only whole pairs may be consumed before the body is complete)");
-    assert!(p.parsed_start == g.0 && p.gap_start == g.1 && res.stream == 0, "GetValues data must never reach the stream buffer");
-    match &p.state { State::Values { vars: v } => assert!(v.bits() == vars, "recognised variable set wrong"), _ => panic!("state changed") }
-    if complete {
-        assert!(res.output == 4 && p.output.len() == 5, "exactly one reply when the body is complete, count reported");
-        assert!(p.output[0] == 0xD1 && p.output[1] == 0xFA && p.output[2] == vars && p.output[3] == 1 && p.output[4] == 0xFB,
-                "reply must be appended after pending output and list exactly the union of recognised names");
-        kani::cover!(o < plen_, "body ends with an incomplete pair (ignored)");
-        if N >= 9 { kani::cover!(vars == 7 && v0 == 0, "all three names in one body"); }
-        kani::cover!(vars != v0, "name recognised");
-        kani::cover!(pairs == 0, "body without any complete pair still gets a reply");
-    } else {
-        assert!(res.output == 0 && p.output.len() == 1, "no reply before the body is complete");
-        kani::cover!(o == 0, "nothing consumable yet");
-        kani::cover!(o > 0 && o < rlen, "pairs consumed, partial pair kept for the next call");
-        kani::cover!(vars != v0, "name recognised in a partial body");
-    }
-    assert!(flow.is_continue() == (p.payload_rem == 0 && c < rlen));
-    std::mem::forget(p);
-}
-
-// @harness name=c02_payload_values_3 props=C02,C04,C03 tier=manual timeout=7000 rmbody=ioerr,nogrow mem=40 dead=1
-// @bound State::Values with any accumulated set; 24-byte buffer, fixed geometry with exactly 3 raw bytes (symbolic contents), payload_rem 1..65535 (shorter bodies via payload_rem); parse_name / write_response replaced by the E5 models; E8
-// @functions stream::Parser::parse_payload, NVIter<&[u8]>::next, parser::parse_nv_var
-#[kani::proof]
-#[kani::unwind(7)]
-#[kani::stub(std::hash::RandomState::new, fixed_random_state)]
-#[kani::stub(fcgi::ProtocolVariables::parse_name, crate::verif_kani::parse_name_model)]
-#[kani::stub(fcgi::ProtocolVariables::write_response, crate::verif_kani::write_response_model)]
-fn c02_payload_values_3() { payload_values_case::<3>(); }
-
-// @harness name=c02_payload_values_2 props=C02,C04,C03 tier=thorough timeout=7000 rmbody=ioerr,nogrow mem=30 dead=4
-// @bound State::Values with any accumulated set; 24-byte buffer, fixed geometry with exactly 2 raw bytes (symbolic contents: at most the empty pair), payload_rem 1..65535; parse_name / write_response replaced by the E5 models; E8
-// @functions stream::Parser::parse_payload, NVIter<&[u8]>::next, parser::parse_nv_var
-#[kani::proof]
-#[kani::unwind(7)]
-#[kani::stub(std::hash::RandomState::new, fixed_random_state)]
-#[kani::stub(fcgi::ProtocolVariables::parse_name, crate::verif_kani::parse_name_model)]
-#[kani::stub(fcgi::ProtocolVariables::write_response, crate::verif_kani::write_response_model)]
-fn c02_payload_values_2() { payload_values_case::<2>(); }
-
-// @harness name=c02_payload_values_4 props=C02,C04,C03 tier=manual timeout=7000 rmbody=ioerr,nogrow mem=40 dead=1
-// @bound State::Values with any accumulated set; 24-byte buffer, fixed geometry with exactly 4 raw bytes (symbolic contents), payload_rem 1..65535 (shorter bodies via payload_rem); parse_name / write_response replaced by the E5 models; E8
-// @functions stream::Parser::parse_payload, NVIter<&[u8]>::next, parser::parse_nv_var
-#[kani::proof]
-#[kani::unwind(7)]
-#[kani::stub(std::hash::RandomState::new, fixed_random_state)]
-#[kani::stub(fcgi::ProtocolVariables::parse_name, crate::verif_kani::parse_name_model)]
-#[kani::stub(fcgi::ProtocolVariables::write_response, crate::verif_kani::write_response_model)]
-fn c02_payload_values_4() { payload_values_case::<4>(); }
-
-// @harness name=c02_payload_values_6 props=C02,C04,C03 tier=manual timeout=7000 rmbody=ioerr,nogrow mem=20 dead=1
-// @bound State::Values with any accumulated set; 24-byte buffer, fixed geometry with exactly 6 raw bytes (symbolic contents), payload_rem 1..65535 (shorter bodies via payload_rem); parse_name / write_response replaced by the E5 models; E8
-// @functions stream::Parser::parse_payload, NVIter<&[u8]>::next, parser::parse_nv_var
-#[kani::proof]
-#[kani::unwind(7)]
-#[kani::stub(std::hash::RandomState::new, fixed_random_state)]
-#[kani::stub(fcgi::ProtocolVariables::parse_name, crate::verif_kani::parse_name_model)]
-#[kani::stub(fcgi::ProtocolVariables::write_response, crate::verif_kani::write_response_model)]
-fn c02_payload_values_6() { payload_values_case::<6>(); }
-
 // ------------------------------------------------------------------------------------------------ parse(): loop glue
 
 // @harness name=c02_parse_glue_skip props=C02,C03,C05 tier=manual timeout=7000 rmbody=ioerr,nogrow mem=24
@@ -584,7 +286,7 @@ fn c02_payload_values_6() { payload_values_case::<6>(); }
 #[kani::stub(std::hash::RandomState::new, fixed_random_state)]
 #[kani::stub(fcgi::ProtocolVariables::parse_name, crate::verif_kani::parse_name_model)]
 #[kani::stub(fcgi::ProtocolVariables::write_response, crate::verif_kani::write_response_model)]
-fn c02_parse_glue_skip() {
+pub(crate) fn c02_parse_glue_skip() {
     let cfg = cfg1();
     let buf: [u8; B] = kani::any();
     let g = any_geo(B);
@@ -647,7 +349,7 @@ fn c02_parse_glue_skip() {
 #[kani::stub(std::hash::RandomState::new, fixed_random_state)]
 #[kani::stub(fcgi::ProtocolVariables::parse_name, crate::verif_kani::parse_name_model)]
 #[kani::stub(fcgi::ProtocolVariables::write_response, crate::verif_kani::write_response_model)]
-fn c03_stream_initial() {
+pub(crate) fn c03_stream_initial() {
     let cfg = cfg1();
     let buf: [u8; B] = kani::any();
     let g = { let g = any_geo(B); (g.0, g.1, g.2, g.2) };       // no raw bytes (same symbol for both ends)
@@ -682,7 +384,7 @@ fn c03_stream_initial() {
 #[kani::proof]
 #[kani::unwind(4)]
 #[kani::stub(std::hash::RandomState::new, fixed_random_state)]
-fn c05_stream_into_input() {
+pub(crate) fn c05_stream_into_input() {
     let cfg = cfg1();
     let buf: [u8; B] = kani::any();
     let g = any_geo(B);
@@ -724,7 +426,7 @@ fn c05_stream_into_input() {
 // ------------------------------------------------------------------------------------------------ parse(): concrete-shaped traces, symbolic cut
 
 /// Stdin record (3 payload bytes, 5 padding) + empty record of unknown type 12 + empty Stdin terminator: 32 bytes.
-fn trace(id: u16, pl: [u8; 3]) -> [u8; 32] {
+pub(crate) fn trace(id: u16, pl: [u8; 3]) -> [u8; 32] {
     let (h, l) = ((id >> 8) as u8, id as u8);
     [1, 5, h, l, 0, 3, 5, 0, pl[0], pl[1], pl[2], 0, 0, 0, 0, 0,
      1, 12, h, l, 0, 0, 0, 0,
@@ -739,7 +441,7 @@ fn trace(id: u16, pl: [u8; 3]) -> [u8; 32] {
 #[kani::stub(std::hash::RandomState::new, fixed_random_state)]
 #[kani::stub(fcgi::ProtocolVariables::parse_name, crate::verif_kani::parse_name_model)]
 #[kani::stub(fcgi::ProtocolVariables::write_response, crate::verif_kani::write_response_model)]
-fn c02_parse_trace_cut() {
+pub(crate) fn c02_parse_trace_cut() {
     let cfg = cfg1();
     let id = any_id();
     let pl: [u8; 3] = kani::any();
@@ -770,6 +472,48 @@ fn c02_parse_trace_cut() {
     std::mem::forget(p);
 }
 
+// @harness name=c02_parse_two_records_dest props=C02,C09 tier=quick timeout=2400 rmbody=ioerr,nogrow,nonv mem=20 unwindset=stream::Parser::<'_>::parse$:5
+// @bound 32-byte buffer holding [Stdin(2 symbolic bytes, padding 6) | Stdin(1 symbolic byte, padding 7)] for a symbolic request id, all of it present; ONE parse() call into a caller buffer of 2..4 bytes (direct delivery, dest = Some), then a second call for what did not fit: the caller receives the stream's bytes in order, each once, never more than its buffer holds
+// @functions stream::Parser::parse (direct delivery across several records in one call), parse_payload, parse_head
+#[kani::proof]
+#[kani::unwind(18)]
+#[kani::stub(std::hash::RandomState::new, fixed_random_state)]
+#[kani::stub(fcgi::ProtocolVariables::parse_name, crate::verif_kani::parse_name_model)]
+#[kani::stub(fcgi::ProtocolVariables::write_response, crate::verif_kani::write_response_model)]
+pub(crate) fn c02_parse_two_records_dest() {
+    let cfg = cfg1();
+    let id = any_id();
+    let pl: [u8; 3] = kani::any();
+    let (h, l) = ((id >> 8) as u8, id as u8);
+    let t: [u8; 32] = [1, 5, h, l, 0, 2, 6, 0, pl[0], pl[1], 0, 0, 0, 0, 0, 0,
+                       1, 5, h, l, 0, 1, 7, 0, pl[2], 0, 0, 0, 0, 0, 0, 0];
+    let d: usize = kani::any();
+    kani::assume(2 <= d && d <= 4);
+    let request = Request { request_id: NonZeroU16::new(id).unwrap(), role: fcgi::Role::Responder, flags: fcgi::RequestFlags::from(0), params: HashMap::new() };
+    let mut p = Parser { buffer: Box::new(t), parsed_start: 0, gap_start: 0, raw_start: 0, free_start: 0, config: &cfg,
+                         output: Vec::with_capacity(32), output_start: 0, request, stream: Some(fcgi::RecordType::Stdin),
+                         payload_rem: 0, padding_rem: 0, state: State::Skip };
+    let mut dest = [0xEEu8; 4];
+    let r1 = p.parse(32, Some(&mut dest[..d]));
+    let s1 = match &r1 { Ok(s) => { assert!(!s.stream_end && s.output == 0, "no end of stream / reply in this trace"); s.stream }, Err(_) => panic!("well-formed trace rejected") };
+    assert!(s1 <= d, "C02: more stream bytes reported than the caller's buffer holds");
+    assert!(s1 == if d < 3 { d } else { 3 }, "C02: direct delivery must fill the caller's buffer with everything that is available");
+    let mut i = 0;
+    while i < 4 { if i < s1 { assert!(dest[i] == pl[i], "C02: bytes delivered into the caller's buffer are not the stream's bytes in order, each once (several records in one call)"); } else { assert!(dest[i] == 0xEE, "C02: bytes written beyond the reported count"); } i += 1; }
+    if s1 < 3 {
+        let mut dest2 = [0xEEu8; 4];
+        let r2 = p.parse(0, Some(&mut dest2[..]));
+        let s2 = match &r2 { Ok(s) => s.stream, Err(_) => panic!("well-formed trace rejected") };
+        assert!(s1 + s2 == 3 && dest2[0] == pl[s1], "C02: the rest of the stream must follow in the next call");
+        kani::cover!(true, "caller buffer smaller than the data of both records");
+        std::mem::forget(r2);
+    }
+    assert!(p.is_record_boundary() && p.stream_buffer().is_empty(), "all of both records consumed");
+    kani::cover!(d == 4, "both records delivered in one call with room to spare");
+    std::mem::forget(r1);
+    std::mem::forget(p);
+}
+
 // ------------------------------------------------------------------------------------------------ contract stub of parse() for the async glue harnesses
 // `Request::poll_input / record_boundary / close` are checked against EVERY behaviour `stream::Parser::parse` may
 // show, by replacing parse() with this nondeterministic stub (the real parse() is the subject of the C02 harnesses).
@@ -781,6 +525,7 @@ pub(crate) static mut GS_PARSE_CALLS: usize = 0;
 pub(crate) static mut GS_FED: usize = 0;               // transport bytes handed to parse() so far
 pub(crate) static mut GS_ERR_BUDGET: usize = 0;        // how many calls may fail
 pub(crate) static mut GS_END: bool = false;
+pub(crate) static mut GS_UNCONSUMED: usize = 0;        // raw protocol bytes still unprocessed after the last parse() call
 pub(crate) static mut GS_ERRS: (usize, usize) = (0, 0);   // (aborts, fatal errors) the stub has returned so far            // once the stream ended it stays ended (sticky end of stream)
 
 pub(crate) fn parse_contract<'a>(p: &mut Parser<'a>, new_input: usize, dest: Option<&mut [u8]>) -> Result<Status, Error> where 'a: 'a {
@@ -791,6 +536,7 @@ pub(crate) fn parse_contract<'a>(p: &mut Parser<'a>, new_input: usize, dest: Opt
         GS_PARSE_CALLS += 1;
         GS_FED += new_input;
         p.free_start += new_input;
+        GS_UNCONSUMED = p.free_start - p.raw_start;
         if GS_ERR_BUDGET > 0 && kani::any() {
             GS_ERR_BUDGET -= 1;
             return Err(if kani::any() { GS_ERRS.0 += 1; Error::AbortRequest } else { GS_ERRS.1 += 1; Error::UnknownVersion(9) });
@@ -799,6 +545,7 @@ pub(crate) fn parse_contract<'a>(p: &mut Parser<'a>, new_input: usize, dest: Opt
         let rs: usize = kani::any();
         kani::assume(p.raw_start <= rs && rs <= p.free_start);
         p.raw_start = rs;
+        GS_UNCONSUMED = p.free_start - p.raw_start;
         // the record in progress may or may not be finished by this call
         if kani::any() { p.payload_rem = 0; p.padding_rem = 0; } else { p.payload_rem = 1; }
         // replies: 0 or 2 bytes
